@@ -440,7 +440,7 @@ def run(chk):
     sch = schema_mod.load(chk.repo.module('model'), 'BARE_SCRIPT_TYPES', 'C18.K')
     chk.guard('C18.M', c08.check_immutability, chk, ('model',), 'C18.M')
     # the shape rules below explain a deviation; once the evaluation C18.R decided positively they are advisory read-backs
-    run_rule = chk.advisory if lint_ok else chk.guard
+    run_rule = chk.readback(lint_ok)
     run_rule('C18.K', check_optional_keys, chk, sch)
     run_rule('C18.X', check_traversal, chk, sch)
     run_rule('C18.K', check_optional_truthiness, chk, sch)
